@@ -456,11 +456,14 @@ def run_group(payload: Dict[str, Any]) -> Dict[str, Any]:
                 # unless the fault hit the release itself (no later lock / pointer write follows it in this run)
                 lock_key = f"{b.location}/.locks/metadata.lock"
                 if lock_key in b.s3w.s3.objs:
-                    fi = max(inj.fired)
-                    later = [c for c in inj.calls[fi + 1:] if c[0].startswith("PUT") and
-                             (".locks/" in c[1] or c[1].endswith(HINT_NAME))]
-                    at_lock = ".locks/" in inj.calls[fi][1] if 0 <= fi < len(inj.calls) else False
-                    if not at_lock or later:
+                    def hit_the_release(fi: int) -> bool:
+                        if not (0 <= fi < len(inj.calls)) or ".locks/" not in inj.calls[fi][1]:
+                            return False
+                        return not [c for c in inj.calls[fi + 1:] if c[0].startswith("PUT") and
+                                    (".locks/" in c[1] or c[1].endswith(HINT_NAME))]
+
+                    if not any(hit_the_release(fi) for fi in inj.fired):
+                        fi = max(inj.fired)
                         problems.append("the metadata lock is still held after the operation returned: "
                                         f"fault at {inj.calls[fi] if 0 <= fi < len(inj.calls) else '?'}")
             if not problems:
